@@ -80,3 +80,40 @@ func RunReplay(t *testing.T, ad Adapter, root sdk.Context, after func(post, pre 
 		t.Fatalf("replay infrastructure error: %v", err)
 	}
 }
+
+// RunPath re-executes one recorded path (VERIF_PATH: JSON {"steps":[{"op":…},…]}) on the real
+// application and writes the real behaviour to VERIF_TRACES (used by --replay).
+func RunPath(t *testing.T, ad Adapter, root sdk.Context) {
+	raw, err := os.ReadFile(os.Getenv("VERIF_PATH"))
+	if err != nil {
+		t.Fatal(err)
+	}
+	var doc struct {
+		Steps []Step `json:"steps"`
+	}
+	if err := json.Unmarshal(raw, &doc); err != nil {
+		t.Fatal(err)
+	}
+	out, err := os.Create(os.Getenv("VERIF_TRACES"))
+	if err != nil {
+		t.Fatal(err)
+	}
+	defer out.Close()
+	ctx := root
+	init := ad.Project(ctx)
+	var path []Step
+	for _, s := range doc.Steps {
+		op := Op{}
+		for k, v := range s.Op {
+			if k != "res" {
+				op[k] = v
+			}
+		}
+		var res string
+		ctx, res = ad.Apply(ctx, op)
+		path = append(path, Step{Op: withRes(op, res), St: ad.Project(ctx)})
+		fmt.Printf("step %v -> %s\n", op, res)
+	}
+	b, _ := json.Marshal(map[string]any{"trace": path, "why": "replay", "init": init})
+	out.Write(append(b, '\n'))
+}
